@@ -1,8 +1,205 @@
 package interp
 
-// Lock-discipline monitor for C18 (filled in later).
-type lockMonitor struct {
-	violations []string
+// M-rwmutex: sync.RWMutex as a state machine, and the lock-discipline monitor of C18.
+//
+// Obligations checked on every path (violations are collected, the harness asserts there are none):
+//  (i)   every call from outside into a method of the watched (wrapped) store happens while the
+//        watched mutex is held: in write mode for Add/Remove/Merge, in read or write mode otherwise;
+//  (ii)  every method of the guarding type releases exactly what it acquired (mutex free on return);
+//  (iii) every method of the guarding type has a single critical section: it acquires the mutex at
+//        most once, and all its calls into the wrapped store lie inside that one section.
+
+import (
+	"fmt"
+	"go/types"
+
+	"golang.org/x/tools/go/ssa"
+)
+
+type muState struct {
+	writer  bool
+	readers int
 }
 
-func (i *interpreter) lockWatch(a, b value) {}
+type lockMonitor struct {
+	mu         map[*value]*muState
+	watchedMu  *value
+	baseType   types.Type // dynamic type of the wrapped store
+	guardType  string     // name of the guarding type (e.g. ConcurrentFactStore)
+	violations []string
+	baseDepth  int // > 0 while inside a method of the wrapped store
+	guardDepth int
+	acquired   int // acquisitions of the watched mutex in the current guard method
+	section    int // index of the current critical section within the guard method (0 = none yet)
+	baseSect   map[int]bool
+	guardName  string
+}
+
+func (i *interpreter) lm() *lockMonitor {
+	if i.lockMon == nil {
+		i.lockMon = &lockMonitor{mu: map[*value]*muState{}}
+	}
+	return i.lockMon
+}
+
+func (m *lockMonitor) state(p *value) *muState {
+	s := m.mu[p]
+	if s == nil {
+		s = &muState{}
+		m.mu[p] = s
+	}
+	return s
+}
+
+func (m *lockMonitor) viol(format string, a ...any) {
+	m.violations = append(m.violations, fmt.Sprintf(format, a...))
+}
+
+// lockWatch(base any, mu *sync.RWMutex)
+func (i *interpreter) lockWatch(base, mu value) {
+	m := i.lm()
+	if ifc, ok := base.(iface); ok {
+		m.baseType = ifc.t
+	}
+	m.watchedMu, _ = mu.(*value)
+	m.guardType = "ConcurrentFactStore"
+}
+
+func init() {
+	externals["(*sync.RWMutex).Lock"] = func(fr *frame, a []value) value {
+		m := fr.i.lm()
+		p := a[0].(*value)
+		if p == nil {
+			panic(nilDeref())
+		}
+		s := m.state(p)
+		if s.writer || s.readers > 0 {
+			panic(targetPanic{rtErrorValue("fatal error: all goroutines are asleep - deadlock! (Lock of a held RWMutex)")})
+		}
+		s.writer = true
+		if p == m.watchedMu && m.guardDepth > 0 {
+			m.acquired++
+			m.section++
+		}
+		return nil
+	}
+	externals["(*sync.RWMutex).Unlock"] = func(fr *frame, a []value) value {
+		m := fr.i.lm()
+		s := m.state(a[0].(*value))
+		if !s.writer {
+			panic(targetPanic{rtErrorValue("fatal error: sync: Unlock of unlocked RWMutex")})
+		}
+		s.writer = false
+		return nil
+	}
+	externals["(*sync.RWMutex).RLock"] = func(fr *frame, a []value) value {
+		m := fr.i.lm()
+		p := a[0].(*value)
+		if p == nil {
+			panic(nilDeref())
+		}
+		s := m.state(p)
+		if s.writer {
+			panic(targetPanic{rtErrorValue("fatal error: all goroutines are asleep - deadlock! (RLock of a write-locked RWMutex)")})
+		}
+		s.readers++
+		if p == m.watchedMu && m.guardDepth > 0 {
+			m.acquired++
+			m.section++
+		}
+		return nil
+	}
+	externals["(*sync.RWMutex).RUnlock"] = func(fr *frame, a []value) value {
+		m := fr.i.lm()
+		s := m.state(a[0].(*value))
+		if s.readers <= 0 {
+			panic(targetPanic{rtErrorValue("fatal error: sync: RUnlock of unlocked RWMutex")})
+		}
+		s.readers--
+		return nil
+	}
+}
+
+func recvNamed(fn *ssa.Function) (string, types.Type) {
+	r := fn.Signature.Recv()
+	if r == nil {
+		return "", nil
+	}
+	t := r.Type()
+	if p, ok := t.(*types.Pointer); ok {
+		t = p.Elem()
+	}
+	if n, ok := t.(*types.Named); ok {
+		return n.Obj().Name(), r.Type()
+	}
+	return "", r.Type()
+}
+
+var mutatingMethods = map[string]bool{"Add": true, "Remove": true, "Merge": true}
+
+// lockEnter is called on entry of every interpreted function when a monitor is active;
+// it returns a function to run on exit (or nil).
+func (m *lockMonitor) lockEnter(fn *ssa.Function) func() {
+	if m.watchedMu == nil || fn.Parent() != nil {
+		return nil
+	}
+	name, rt := recvNamed(fn)
+	if name == "" {
+		return nil
+	}
+	if name == m.guardType && fn.Synthetic == "" {
+		if m.guardDepth > 0 {
+			return nil
+		}
+		m.guardDepth++
+		m.acquired, m.section = 0, 0
+		m.baseSect = map[int]bool{}
+		m.guardName = fn.Name()
+		return func() {
+			m.guardDepth--
+			s := m.state(m.watchedMu)
+			if s.writer || s.readers > 0 {
+				m.viol("%s.%s returns with the mutex still held", m.guardType, fn.Name())
+				s.writer, s.readers = false, 0
+			}
+			if m.acquired > 1 {
+				m.viol("%s.%s acquires the mutex %d times: the operation is not one critical section", m.guardType, fn.Name(), m.acquired)
+			}
+			if len(m.baseSect) > 1 {
+				m.viol("%s.%s calls the wrapped store from %d different critical sections", m.guardType, fn.Name(), len(m.baseSect))
+			}
+		}
+	}
+	// a method of the wrapped store?
+	bt := m.baseType
+	if bt == nil {
+		return nil
+	}
+	if p, ok := bt.(*types.Pointer); ok {
+		bt = p.Elem()
+	}
+	rbt := rt
+	if p, ok := rbt.(*types.Pointer); ok {
+		rbt = p.Elem()
+	}
+	if !types.Identical(bt, rbt) {
+		return nil
+	}
+	if m.baseDepth > 0 {
+		m.baseDepth++
+		return func() { m.baseDepth-- }
+	}
+	m.baseDepth++
+	s := m.state(m.watchedMu)
+	if mutatingMethods[fn.Name()] {
+		if !s.writer {
+			m.viol("wrapped store method %s (a write) called from %s.%s without the write lock (held: writer=%v readers=%d)", fn.Name(), m.guardType, m.guardName, s.writer, s.readers)
+		}
+	} else if !s.writer && s.readers == 0 {
+		m.viol("wrapped store method %s called from %s.%s without holding the lock", fn.Name(), m.guardType, m.guardName)
+	}
+	if m.guardDepth > 0 {
+		m.baseSect[m.section] = true
+	}
+	return func() { m.baseDepth-- }
+}
